@@ -223,6 +223,44 @@ class ConwipCb:
             self.log.conwip_jobs = getattr(self.log, 'conwip_jobs', 0) + 1
 
 
+class LotSeenCb:
+    """Workload callback (receive callback of a batcher): remembers the lot that came in last."""
+
+    def __init__(self, world, dev_id):
+        self.world, self.dev_id = world, dev_id
+
+    def __call__(self, dev, part):
+        if instrument.PROBING:
+            return
+        self.world.current_lot = getattr(self.world, 'current_lot', {})
+        self.world.current_lot[self.dev_id] = part
+
+
+class ScrapCb:
+    """Workload callback (receive callback of the inspection station right behind a batcher): every k-th part it
+    receives is bad and the rest of the lot that part came from is scrapped - Batch.parts "can be modified directly" -
+    i.e. the batcher's input is emptied in the middle of the batcher's hand-over."""
+
+    def __init__(self, log, world, dev_id, batcher_id, every):
+        self.log, self.world, self.dev_id, self.batcher_id, self.every, self.n = log, world, dev_id, batcher_id, every, 0
+
+    def __call__(self, dev, part):
+        if instrument.PROBING:
+            return
+        self.n += 1
+        if self.n % self.every:
+            return
+        lot = getattr(self.world, 'current_lot', {}).get(self.batcher_id)
+        members = getattr(lot, 'parts', None)
+        if not members:
+            return
+        self.log.scrapped = getattr(self.log, 'scrapped', set())
+        for u in members:
+            self.log.scrapped.add(getattr(u, 'huid', None) or 'anon:%d' % id(u))
+        self.log.scrap_events = getattr(self.log, 'scrap_events', 0) + 1
+        members.clear()
+
+
 class SinkFeeCb:
     """Workload callback (receive callback of a sink): the part that has just been received is written down by a fee -
     after receipt, so the sink has booked the value the part had when it arrived."""
@@ -822,6 +860,8 @@ def build(spec, bus=None, script=True, system=None, known=None):
                                                                     value=it.get('value', 0))
             if it.get('conwip'):
                 d.add_receive_part_callback(ConwipCb(log, w, i, it['conwip']))
+            if it.get('scrap'):
+                d.add_receive_part_callback(ScrapCb(log, w, i, it['scrap']['batcher'], it['scrap']['every']))
         elif k == 'processor':
             if it.get('setup'):
                 d = HSetupProc(nm, ups, it['ct'], dict(it['res']) if it.get('res') else None,
@@ -867,6 +907,8 @@ def build(spec, bus=None, script=True, system=None, known=None):
             d = PartFlowController(name=nm, upstream=ups)
         elif k == 'batcher':
             d = PartBatcher(name=nm, upstream=ups, output_batch_size=it.get('size'))
+            if it.get('lot_seen'):
+                d.add_receive_part_callback(LotSeenCb(w, i))
         elif k == 'sink':
             d = Sink(name=nm, upstream=ups, cycle_time=it.get('ct', 0), collect_parts=it.get('collect', False))
         elif k == 'group':
